@@ -13,6 +13,7 @@ import (
 func init() { Registry["C10"] = c10 }
 
 func c10(r *Report) {
+	defer c10Seed9(r)
 	defer c10Seed8(r)
 	defer c10Seed7(r)
 	defer c10Seed5(r)
